@@ -417,6 +417,62 @@ theorem pendInv_run (sites : List TrySite) (key : AnyClaim → η) (le : η → 
 omit [DecidableEq η] in
 theorem pendInv_init : PendInv ({} : AState η) := ⟨fun _ h => (by cases h), fun _ h => (by cases h)⟩
 
+/-! ### the recorded external block height is the executed claim's -/
+
+/-- `SetLastObservedBlockHeight` is only written together with an entry of the execution log -/
+def HeightInv (s : AState η) : Prop := ∀ e, s.executed.getLast? = some e → s.lastHeight = e.claim.blockHeight
+
+theorem heightInv_init : HeightInv ({} : AState η) := fun _ h => by cases h
+
+theorem heightInv_observe (key : AnyClaim → η) (s : AState η) (a : Att η) (ch : AnyClaim) : HeightInv (observe key s a ch) := by
+  intro e he
+  simp only [observe, List.getLast?_append, List.getLast?_singleton, Option.some_or, Option.some.injEq] at he
+  subst he
+  rfl
+
+theorem heightInv_vote (sites : List TrySite) (key : AnyClaim → η) (le : η → η → Bool) (s : AState η) (o : Nat) (c : AnyClaim)
+    (hp : Bool) (hs : HeightInv s) : HeightInv (voteWith sites key le s o c hp).1 := by
+  unfold voteWith
+  split
+  · exact hs
+  split
+  · exact hs
+  split
+  · split
+    · exact hs
+    · exact heightInv_observe key (afterVote s _) _ _
+  · exact hs
+
+theorem heightInv_step (sites : List TrySite) (key : AnyClaim → η) (le : η → η → Bool) (s : AState η) (op : Op) (hs : HeightInv s) :
+    HeightInv (stepWith sites key le s op) := by
+  cases op with
+  | vote o c hp => exact heightInv_vote sites key le s o c hp hs
+  | setPower o p => cases p <;> exact hs
+  | setTotal t => exact hs
+  | setExts xs => exact hs
+  | setLastObserved n => exact hs
+  | setOracleLast o n => cases n <;> exact hs
+  | execute n f =>
+    simp only [stepWith, execute]
+    split
+    · exact hs
+    · split <;> exact hs
+
+theorem heightInv_run (sites : List TrySite) (key : AnyClaim → η) (le : η → η → Bool) (ops : List Op) (s : AState η)
+    (hs : HeightInv s) : HeightInv (runWith sites key le s ops) := by
+  induction ops generalizing s with
+  | nil => exact hs
+  | cons op r ih => exact ih _ (heightInv_step sites key le s op hs)
+
+theorem effect_blockHeight {c₁ c₂ : AnyClaim} (h : c₁.effect = c₂.effect) : c₁.blockHeight = c₂.blockHeight := by
+  cases c₁ <;> cases c₂ <;> simp only [AnyClaim.effect, reduceCtorEq, AnyClaim.stf.injEq, AnyClaim.bc.injEq,
+    AnyClaim.bcr.injEq, AnyClaim.ste.injEq, AnyClaim.bt.injEq, AnyClaim.osu.injEq] at h
+  all_goals
+    rename_i a b
+    cases a; cases b
+    simp_all [AnyClaim.blockHeight, MsgSendToFxClaim.effect, MsgBridgeCallClaim.effect, MsgBridgeCallResultClaim.effect,
+      MsgSendToExternalClaim.effect, MsgBridgeTokenClaim.effect, MsgOracleSetUpdatedClaim.effect]
+
 theorem mem_claims_of_vote {o : Nat} {c : AnyClaim} {hp : Bool} : ∀ {ops : List Op}, Op.vote o c hp ∈ ops → c ∈ Op.claims ops
   | [], h => by cases h
   | x :: r, h => by
